@@ -54,6 +54,23 @@ func c06World(t *testing.T, p c06Params) rt.Result {
 			// the hold timer expires, not when the plugin is done
 			ps.Cfg.OnCloseFn = func(*hz.Session) { time.Sleep(500 * time.Millisecond) }
 		}
+		// a slow socket in a fifth of the worlds: three writes in ten take 200 ms to take
+		// effect (while the session is up); what is measured then is allowed that much more
+		stall := time.Duration(0)
+		if p.Seed%5 == 2 {
+			stall = 200 * time.Millisecond
+		}
+		tol := c06Tol + 2*stall // (a timer is re-armed when a delayed write is done, and the next write may be delayed too)
+		sr := rand.New(rand.NewPCG(p.Seed, 607))
+		var smu sync.Mutex
+		stallFn := func() time.Duration {
+			smu.Lock()
+			defer smu.Unlock()
+			if sr.IntN(10) < 3 {
+				return stall
+			}
+			return 0
+		}
 		var wmu sync.Mutex
 		var curLocal string
 		var curH time.Duration
@@ -68,6 +85,7 @@ func c06World(t *testing.T, p c06Params) rt.Result {
 			return nil
 		}
 		stopW := make(chan struct{})
+		var lwg sync.WaitGroup
 		ps.Cfg.OnEst = func(s *hz.Session) {
 			wmu.Lock()
 			pat, H := curLocal, curH
@@ -75,7 +93,9 @@ func c06World(t *testing.T, p c06Params) rt.Result {
 			if pat == "none" {
 				return
 			}
+			lwg.Add(1)
 			go func() {
+				defer lwg.Done()
 				body := []byte{0, 0, 0, 0}
 				if pat == "burst" {
 					for i := 0; i < 20; i++ {
@@ -90,11 +110,16 @@ func c06World(t *testing.T, p c06Params) rt.Result {
 				if H == 0 {
 					iv = time.Second
 				}
+				wr := rand.New(rand.NewPCG(p.Seed, uint64(s.Epoch)+606))
 				for i := 0; i < 40; i++ {
+					d := iv
+					if pat == "random" && H > 0 { // anywhere within two keepalive intervals
+						d = time.Duration(1 + wr.Int64N(int64(2*H/3)))
+					}
 					select {
 					case <-stopW:
 						return
-					case <-time.After(iv):
+					case <-time.After(d):
 					}
 					if s.Writer.WriteUpdate(body) != nil {
 						return
@@ -104,7 +129,10 @@ func c06World(t *testing.T, p c06Params) rt.Result {
 		}
 		w.DialPolicy = func(hz.DialReq) (hz.DialAction, time.Duration) { return hz.DialAccept, 0 }
 		mon := w.MustAddPeer(ps)
-		defer close(stopW)
+		defer func() { // no local writer outlives the scenario (one may be inside a delayed write)
+			close(stopW)
+			lwg.Wait()
+		}()
 		nconn := 0
 		for si, sp := range p.Sessions {
 			desc := fmt.Sprintf("[%s local=%d session %d: remote=%d traffic=%s local-writes=%s]", p.Dir, p.LocalH, si, sp.Remote, sp.Traffic, sp.Local)
@@ -162,8 +190,16 @@ func c06World(t *testing.T, p c06Params) rt.Result {
 					return
 				}
 				established = true
+				if stall > 0 && H >= 3*time.Second {
+					rc.Pair.SetWriteDelay0(stallFn)
+				}
 				// remote traffic phase
 				iv := H - 10*time.Millisecond
+				if stall > 0 && H >= 3*time.Second {
+					// while one of its own writes is delayed the FSM does not look at what it
+					// has received: the remote keeps that much distance from the deadline
+					iv -= stall + 50*time.Millisecond
+				}
 				if H == 0 {
 					iv = 50 * time.Second
 				}
@@ -210,6 +246,10 @@ func c06World(t *testing.T, p c06Params) rt.Result {
 				// outbound fsm object goes on to the next session with whatever it remembers
 				rc.SendNotification(6, 2, nil)
 				w.Settle()
+				if stall > 0 {
+					time.Sleep(stall) // the FSM may be inside a delayed write
+					w.Settle()
+				}
 				if eof, _ := rc.EOF(); !eof {
 					w.Violate("%s connection not closed after the remote's Cease", desc)
 					return
@@ -270,7 +310,7 @@ func c06World(t *testing.T, p c06Params) rt.Result {
 				if nAt < lastRemote+H {
 					w.Violate("%s hold timer expired at +%v, only %v after the remote's last message at +%v (hold time in force %v)", desc, nAt, nAt-lastRemote, lastRemote, H)
 				}
-				if nAt > lastRemote+H+c06Tol || eofAt > lastRemote+H+c06Tol {
+				if nAt > lastRemote+H+tol || eofAt > lastRemote+H+tol {
 					w.Violate("%s hold timer expiry late: NOTIFICATION at +%v, close at +%v, due at +%v", desc, nAt, eofAt, lastRemote+H)
 				}
 			}
@@ -284,7 +324,7 @@ func c06World(t *testing.T, p c06Params) rt.Result {
 				if m.Type == wire.TypeKeepalive {
 					nKA++
 				}
-				if gap := m.At - prev; gap > H/3+c06Tol {
+				if gap := m.At - prev; gap > H/3+tol {
 					w.Violate("%s %v passed between consecutive messages from corebgp (+%v -> +%v, %s); one third of the hold time is %v", desc, gap, prev, m.At, m.Message, H/3)
 					break
 				}
@@ -316,14 +356,14 @@ func TestC06(t *testing.T) {
 	c := rt.Get()
 	holds := []int{0, 3, 4, 9, 10, 30, 90, 65535}
 	traffic := []string{"silent", "ka", "upd", "mixed", "ocsilent", "busy", "cease"}
-	locals := []string{"none", "burst", "periodic"}
+	locals := []string{"none", "burst", "periodic", "random"}
 	idx := 0
 	// the full (local, remote) grid x traffic, single session, both directions
 	for _, lh := range holds {
 		for _, rh := range holds {
 			for ti, tr := range traffic {
 				for di, dir := range allDirs {
-					p := c06Params{Dir: dir, LocalH: lh, Sessions: []c06Sess{{rh, tr, locals[(ti+di+idx)%3]}}, Seed: uint64(idx)*40503 + c.Seed, Hook: hz.HookVSleep, NilH: idx%3 == 2}
+					p := c06Params{Dir: dir, LocalH: lh, Sessions: []c06Sess{{rh, tr, locals[(ti+di+idx)%len(locals)]}}, Seed: uint64(idx)*40503 + c.Seed, Hook: hz.HookVSleep, NilH: idx%3 == 2}
 					i := idx
 					runCase(t, "grid", i, p, func(t *testing.T) rt.Result { return c06World(t, p) })
 					idx++
@@ -346,7 +386,7 @@ func TestC06(t *testing.T) {
 		}
 		p := c06Params{Dir: allDirs[r.IntN(2)], LocalH: pick(), Seed: uint64(i)*69069 + c.Seed, Hook: hookMode(r), NilH: r.IntN(3) == 0}
 		for k := 1 + r.IntN(3); k > 0; k-- {
-			p.Sessions = append(p.Sessions, c06Sess{pick(), traffic[r.IntN(len(traffic))], locals[r.IntN(3)]})
+			p.Sessions = append(p.Sessions, c06Sess{pick(), traffic[r.IntN(len(traffic))], locals[r.IntN(len(locals))]})
 		}
 		runCase(t, "multi", i, p, func(t *testing.T) rt.Result { return c06World(t, p) })
 	}
